@@ -22,6 +22,10 @@ class Boom(Exception):
     pass
 
 
+class SpuriousCancel(Exception):
+    pass
+
+
 class CleanupError(Exception):
     pass
 
@@ -82,6 +86,8 @@ class C06(Prop):
             "recv_raises": surface.startswith("asgi") and t.draw(10) == 0,
             # (ASGI) the request has a body nobody reads; it arrives in this many http.request messages, the later ones after a while
             "req_msgs": t.choice((1, 1, 1, 2, 3)), "req_gap": t.choice((0.0, 0.0, 0.3)),
+            # (ASGI) loop iterations take (virtual) time: a timer may fall due between callbacks that became ready at one instant
+            "tick": t.draw(2) == 0,
         }
         # the producer object fails when asked for its iterator (__iter__ / __aiter__ raises): the producer's own exception, before any item
         plan["iter_fails"] = plan["iter_kind"] != "gen" and t.draw(8) == 0
@@ -163,6 +169,8 @@ class C06(Prop):
 
         surf = plan["surface"]
         sse = surf == "asgi-sse"
+        if plan.get("recv_raises") and variant is not None and variant[0] in ("after", "time"):
+            return      # (only a shrunk plan gets here) no disconnect can be announced through a channel that raises: nothing to judge
         P, n, delays, boom_at, cdelay = plan["P"], plan["n"], plan["delays"], plan["boom_at"], plan["cdelay"]
         lats = L_SETS[plan["lat"]]
         L_max = max(lats)
@@ -266,12 +274,19 @@ class C06(Prop):
             it = build_iterable(loop)
             r = SendEventResponse(it, ping_interval=P) if sse else StreamResponse(it)
             exc = None
+            # the call runs as a task of its own: if it ends in CancelledError although nobody cancelled it, that is its outcome
+            call = loop.create_task(r(peer.scope, peer.receive, peer.send), name="response")
             try:
-                await r(peer.scope, peer.receive, peer.send)
-            except BaseException as e:  # noqa
-                if isinstance(e, (asyncio.CancelledError, SimDeadlock, SimTimeLimit, SimStepLimit)):
-                    raise
-                exc = e
+                await asyncio.wait([call])
+            finally:
+                if not call.done():
+                    call.cancel()
+            if call.cancelled():
+                exc = SpuriousCancel("the response call ended in CancelledError although nobody cancelled it")
+            elif call.exception() is not None:
+                exc = call.exception()
+                if isinstance(exc, (SimDeadlock, SimTimeLimit, SimStepLimit)):
+                    raise exc
             t_ret = loop.time()
             if exc is None:
                 peer.monitor.on_return()
@@ -292,7 +307,7 @@ class C06(Prop):
             return snap
 
         try:
-            snap, loop = run_sim(scenario, ctx.sched, ctx, vcap=1000.0 * P, step_cap=50000)
+            snap, loop = run_sim(scenario, ctx.sched, ctx, vcap=1000.0 * P, step_cap=50000, tick=(0.0, 1e-7, 2e-7) if plan.get("tick") else None)
         except (SimDeadlock, SimTimeLimit, SimStepLimit) as e:
             ctx.violate("C06|%s|termination|never-returns|%s" % (surf, type(e).__name__), "response call did not return: %s" % e)
             return
